@@ -46,14 +46,17 @@ class World:
 
 
 class FaultyRaw(io.RawIOBase):
-    def __init__(self, world, name, real_path=None):
+    def __init__(self, world, name, real_path=None, opener=None):
         super().__init__()
         self.world = world
         self.name_ = name
         self.real_path = real_path
         self.fd = None
         if real_path is not None:
-            self.fd = os.open(real_path, os.O_WRONLY | os.O_CREAT | os.O_TRUNC, 0o644)
+            flags = os.O_WRONLY | os.O_CREAT | os.O_TRUNC
+            # an opener the code passes to open() decides how the file on disk is really opened (what it does with the
+            # flags of mode 'w' - truncation, permissions - shows in the file the verdict reads back)
+            self.fd = opener(real_path, flags | getattr(os, 'O_CLOEXEC', 0)) if opener else os.open(real_path, flags, 0o644)
         world.sinks[name] = bytearray()
         self._done = False
 
@@ -113,7 +116,7 @@ def make_open(world, real_open=open):
         if 'w' in mode or 'a' in mode or '+' in mode:
             name = os.path.basename(path)
             world.op('open', name)
-            raw = FaultyRaw(world, name, path)
+            raw = FaultyRaw(world, name, path, opener=kw.get('opener'))
             # the layering the code asked for is kept: an unbuffered binary file IS the raw sink (its write() may be short)
             if buffering == 0:
                 if 'b' not in mode:
